@@ -136,7 +136,9 @@ func (t *Interface) Resolve(field *Field, args map[string]interface{}) (result i
 
 func (t *Interface) possibleTypes() *typeList {
 	list := newTypeList()
-
+	if t.Root == nil {
+		return list
+	}
 	for _, pt := range t.Root.types.list {
 		if obj, _ := pt.(*Object); obj != nil {
 			for _, i := range obj.Interfaces {
